@@ -8,6 +8,22 @@ RULE = ("dates sampled over all 65536 years x calendar days (stride by tier) plu
 TRUSTED = ["core::fmt integer formatting ({}, {:02}, {:04}) is modelled by Date.fmt_int and exercised by correspondence"]
 ASSUMPTIONS = ["add_days / from_ymd panics on out-of-range results are documented API contracts (preconditions)"]
 
+# >>> a_c13 (wave 4)
+RULE += ("; wave 4 (props/C13_more.py): constructors of the four types over all small/boundary u8 (m, d, h); Ord/PartialOrd/Eq/Hash "
+         "of the four types on neighbouring and random pairs; PdsDateFormatter in its three formats for the four types and parse back; "
+         "FromStr, serde Deserialize (i32/str/borrowed str/String/other) and Serialize; RawDate::from_binary; add_days at the first/last "
+         "representable day and around year 0 incl. the documented panics; independent date pairs; and implementation-only sweeps: every "
+         "year x every calendar day (x every hour for a stride of years), every binary value of the window holding all accepted "
+         "values plus blocks outside, every digit string of the four fast-path shapes, every byte at every position of every "
+         "MM/M x DD/D string for a set of years")
+CLAIM_WAVE4 = ("Also proved (Props/C13_more.v): constructors accept exactly their calendar and the accessors read the fields back; Ord is "
+               "the lexicographic order of (year, month, day, hour) and Eq is equality; to_binary total with closed form for every i16 year; "
+               "heuristics characterised; RawDate::from_binary; days_until total/antisymmetric/additive; day numbers injective; "
+               "a.add_days(a.days_until(b)) = b for all valid a, b; add_days succeeds exactly inside the representable range; "
+               "parse o game_fmt o parse = parse for the three typed dates.")
+PROFILES = ["release", "debug"]   # a slice of the sweeps and the boundary arithmetic also run on the debug build
+# <<< a_c13
+
 DPM = [0, 31, 28, 31, 30, 31, 30, 31, 31, 30, 31, 30, 31]
 
 
@@ -250,6 +266,11 @@ def run(ctx):
             exp = "lt" if n > 0 else ("gt" if n < 0 else "eq")
             if impl2[base + j + 1] != exp:
                 ctx.fail("ord-sign", "ordering of %s and its add_days(%d) is %s" % (acases[k].split("\t")[1:4], n, impl2[base + j + 1]), [acases[k], ucases[j + 1]], [impl2[base + j + 1]], exp)
+
+    # >>> a_c13 (wave 4): clauses audit/C13.md found uncovered (props/C13_more.py)
+    from props import C13_more
+    C13_more.run_more(ctx)
+    # <<< a_c13
 
 
 def search(ctx):
